@@ -266,7 +266,7 @@ pub fn describe_leg(leg: &Leg, thorough: bool) -> Value {
         }),
         Leg::Matrix => json!({
             "kind": "feature-matrix differential: proptest programs sent to one persistent vrun process per feature set",
-            "programs_requested": if thorough { 2_000_000 } else { 160_000 },
+            "programs_requested": if thorough { 1_200_000 } else { 160_000 },
         }),
         Leg::QueueSweep { jmax_q, jmax_t } => json!({
             "kind": "deterministic boundary sweep (enumeration), sharded over worker processes",
